@@ -149,8 +149,9 @@ impl SignatureConverter<'_> {
 
         for param in params.into_iter() {
             match &param {
-                syn::GenericParam::Type(_) => {}
-                _ => {
+                // type and const params are lifted to the trait
+                syn::GenericParam::Type(_) | syn::GenericParam::Const(_) => {}
+                syn::GenericParam::Lifetime(_) => {
                     generics.params.push(param);
                 }
             }
